@@ -69,7 +69,7 @@ TIE_THEOREMS = {".IsReservedWord": "IsReservedWord_eq", "File.isLocal": "isLocal
                 "File.ImportNames": "ImportNames_eq", "File.ImportAlias": "ImportAlias_eq",
                 "comment.render": "comment_render_eq", "tag.isNull": "tag_isNull_eq", "tag.render": "tag_render_eq",
                 "File.renderImports": "renderImports_src_eq_model",
-                "token.isNull": "token_isNull_eq", "comment.isNull": "comment_isNull_eq", "Group.isNullItems": "Group_isNullItems_eq",
+                "token.isNull": "token_isNull_eq", "comment.isNull": "comment_isNull_eq", "Group.isNullItems": "Group_isNullItems_eq", "Group.countItems": "Group_countItems_eq",
                 "Group.isNull": "Group_isNull_eq", "Statement.isNull": "Statement_isNull_eq", "Dict.isNull": "Dict_isNull_eq",
                 "Statement.render": "Statement_render_eq", "Group.renderItems": "Group_renderItems_eq", "Group.render": "Group_render_eq",
                 "File.Render": "File_Render_eq", "Statement.RenderWithFile": "Statement_RenderWithFile_eq",
@@ -101,7 +101,7 @@ if prop in TIE_PROPS:
     THM_FILE["Dict_render_eq"] = "JenVerif/Tie/DictSrc.lean"
     THM_FILE["token_render_eq"] = "JenVerif/Tie/TokenSrc.lean"
     THM_FILE.update({t: "JenVerif/Tie/EntrySrc.lean" for t in ("File_Render_eq", "Statement_RenderWithFile_eq", "Group_RenderWithFile_eq", "File_Save_eq")})
-    THM_FILE.update({t: "JenVerif/Tie/RenderSrc.lean" for t in ("Statement_render_eq", "Group_renderItems_eq", "Group_render_eq")})
+    THM_FILE.update({t: "JenVerif/Tie/RenderSrc.lean" for t in ("Statement_render_eq", "Group_renderItems_eq", "Group_render_eq", "Group_countItems_eq")})
     THM_FILE.update({t: "JenVerif/Tie/NullSrc.lean" for t in ("token_isNull_eq", "comment_isNull_eq", "Group_isNullItems_eq", "Group_isNull_eq", "Statement_isNull_eq", "Dict_isNull_eq")})
     DEPS = {"JenVerif/Tie/RegistrySrc.lean": [], "JenVerif/Tie/GuessAliasSrc.lean": [],
             "JenVerif/Tie/RegisterSrc.lean": ["JenVerif/Tie/RegistrySrc.lean"], "JenVerif/Tie/TextSrc.lean": [], "JenVerif/Tie/ImportsSrc.lean": [], "JenVerif/Tie/NullSrc.lean": ["JenVerif/Tie/RegistrySrc.lean"],
